@@ -27,7 +27,7 @@ def run(ctx):
             continue
         cases += gen[k]["cases"]
     live = [c for c in cases if "skipped" not in c]
-    ocases = [{k: c[k] for k in ("id", "nq", "G", "u", "tlens", "cnt", "rc", "qcols", "tcols", "checkp", "self")} for c in live]
+    ocases = [{k: c[k] for k in ("id", "nq", "G", "u", "tlens", "cnt", "rc", "qcols", "tcols", "checkp", "self", "V2")} for c in live]
     oracle = {o["id"]: o for o in ctx.oracle("TomtomScore_Oracle", "TomtomScore_Oracle.cfg", ocases, shards=core.NCPU, timeout_s=3000)}
     st = dict(cases=len(cases), degenerate_skipped=len(cases) - len(live), pairs=0, p_checked=0, zero_score_pairs=0, ties=0)
     for c in live:
@@ -36,6 +36,9 @@ def run(ctx):
         if c["st"] != "ok":
             ctx.violation("M3", "tomtom raised: %s" % c.get("msg"), info, cls="raised")
             continue
+        st["rounding_ties"] = st.get("rounding_ties", 0) + o["ties"]
+        if not o["rounding"]:
+            ctx.violation("M3", "integerised similarity is not the nearest integer of the scaled similarity (exact ties go up)", info, cls="rounding")
         if not o["monotone"]:
             ctx.violation("M3", "integerised column similarity is not monotone in Euclidean distance", info, cls="monotone")
         if c["rc"] and not (c.get("rc_p_same", True) and c.get("rc_score_same", True)):
